@@ -244,4 +244,115 @@ def advancedAddSub (A : Arith) (s1 s2 so : FVal) (bitdepth : Int) : Except Err A
   | .error e => .error e
   | .ok (iq, ish) => .ok ⟨iq, ish, r.outScale, r.outShift, op⟩
 
+/-! ### call sites in `register_command_stream_generator.py` (what reaches the registers) -/
+
+def Dbl.isNan : Dbl → Bool
+  | .nan => true
+  | _ => false
+
+/-- `a == b` as Python / NumPy evaluate it (in the promoted kind) -/
+def cmpEq (A : Arith) (a b : FVal) : Bool :=
+  let k := promote a.kind b.kind
+  let x := A.cast k a.val
+  let y := A.cast k b.val
+  !x.isNan && !y.isNan && !Dbl.lt x y && !Dbl.lt y x
+
+/-- `int(x)`: truncation toward zero -/
+def Dbl.truncInt : Dbl → Except Err Int
+  | .nan => .error .value
+  | .inf _ => .error .overflow
+  | .zero _ => .ok 0
+  | .fin neg m e =>
+    let mag : Nat := if e ≥ 0 then m * 2 ^ e.toNat else m / 2 ^ (-e).toNat
+    .ok (if neg then -(mag : Int) else mag)
+
+/-- `int(x // 2)` for a finite float (`x / 2` and its floor are exactly representable) -/
+def Dbl.floorDiv2Int : Dbl → Except Err Int
+  | .nan => .error .value
+  | .inf _ => .error .value        -- inf // 2 is nan
+  | .zero _ => .ok 0
+  | .fin neg m e =>
+    -- floor(± m · 2^(e-1))
+    let e' := e - 1
+    if e' ≥ 0 then .ok ((if neg then -1 else 1) * ((m * 2 ^ e'.toNat : Nat) : Int))
+    else
+      let d : Nat := 2 ^ (-e').toNat
+      if neg then .ok (-(((m + d - 1) / d : Nat) : Int)) else .ok ((m / d : Nat) : Int)
+
+/-- `cmd1_with_offset(cmd, offset, param)`: `int(offset) & 0xFFFFFFFF`, `int(param) & 0xFFFF`
+    (Python `&` on a negative int is the two's-complement residue) -/
+def regOffset (x : Int) : Int := x % 2 ^ 32
+def regParam (x : Int) : Int := x % 2 ^ 16
+
+/-- registers written by `generate_scaling_for_elementwise` for ADD / SUB / MUL -/
+structure EwRegs where
+  opa : Option (Int × Int)      -- NPU_SET_OPA_SCALE (offset, param); not written for MUL
+  opb : Option Int              -- NPU_SET_OPB_SCALE offset
+  ofmScale : Int                -- NPU_SET_OFM_SCALE offset
+  ofmShift : Int                -- NPU_SET_OFM_SCALE param
+  opToScale : Nat               -- return value (0, OPa = 1, OPb = 2)
+deriving Repr, DecidableEq
+
+/-- `output_scale = 1 / 0x3000` (fused sigmoid / tanh) -/
+def oneOver0x3000 : FVal := ⟨.py, .fin false 6004799503160661 (-66)⟩
+
+/-- `generate_scaling_for_elementwise` for MUL (no explicit rescale, all scales present) -/
+def ewRegistersMul (A : Arith) (s1 s2 so : FVal) : Except Err EwRegs :=
+  match elementwiseMulScale A s1 s2 so with
+  | .error e => .error e
+  | .ok (q, s) => .ok ⟨none, none, regOffset q, regParam s, 0⟩
+
+/-- `generate_scaling_for_elementwise` for ADD / SUB (no explicit rescale, all scales present) -/
+def ewRegistersAddSub (A : Arith) (bitdepth : Int) (s1 s2 so : FVal) (reversed : Bool) :
+    Except Err EwRegs :=
+  let advanced : Except Err EwRegs :=
+    match advancedAddSub A s1 s2 so bitdepth with
+    | .error e => .error e
+    | .ok r =>
+      let op : Nat := if r.opToScale = .opa then 1 else 2
+      let op := if reversed then (if op = 1 then 2 else 1) else op
+      .ok ⟨some (regOffset r.inScale, regParam r.inShift), some 0, regOffset r.outScale, regParam r.outShift, op⟩
+  if cmpEq A s1 s2 ∧ bitdepth = 16 then
+    match simplifiedAddSub A s1 s2 so 16 with
+    | .error e => .error e
+    | .ok r =>
+      match r.input1Rescale.val.floorDiv2Int, r.input2Rescale.val.floorDiv2Int with
+      | .ok a, .ok b => .ok ⟨some (regOffset a, 0), some (regOffset b), regOffset r.outScale, regParam (r.outShift - 1), 0⟩
+      | .error e, _ => .error e
+      | _, .error e => .error e
+  else if cmpEq A s1 s2 then
+    match simplifiedAddSub A s1 s2 so 16 with
+    | .error e => .error e
+    | .ok r =>
+      if r.outScale % 4096 ≠ 0 then advanced       -- int(ofm_scale) & 0xFFF != 0
+      else
+        match r.input1Rescale.val.truncInt, r.input2Rescale.val.truncInt with
+        | .ok a, .ok b => .ok ⟨some (regOffset a, 0), some (regOffset b), regOffset r.outScale, regParam r.outShift, 0⟩
+        | .error e, _ => .error e
+        | _, .error e => .error e
+  else advanced
+
+/-- `generate_ofm_scaling_for_pooling`, last branch (plain average pool, no fused activation /
+    quantize / explicit rescale), for **equal** IFM and OFM scales (`rescale = 1.0` in kind `k`):
+    `scale = int(round_away_zero(scale * rescale))` converts the Python int to kind `k` first. -/
+def poolRegistersEqualScales (A : Arith) (k : FKind) (n : Int) : Except Err (Int × Int) :=
+  match quantisePoolingScale n 0 with
+  | .error e => .error e
+  | .ok (S, sh) =>
+    if S < 0 ∨ S ≥ 2 ^ 53 then .error .unmodelled else
+    match (A.mul k (A.cast k (.fin false S.toNat 0)) (.fin false 1 0)).truncInt with
+    | .error e => .error e
+    | .ok S' => .ok (regOffset S', regParam sh)
+
+/-- round-to-nearest-even of a natural number to `bits` significant bits (what the conversion of a
+    Python int to float32 does for `bits = 24`) -/
+def rneNat (bits : Nat) (n : Nat) : Nat :=
+  let len := bitLength n
+  if len ≤ bits then n else
+  let sh := len - bits
+  let q := n / 2 ^ sh
+  let r := n % 2 ^ sh
+  let half := 2 ^ (sh - 1)
+  if r > half ∨ (r = half ∧ q % 2 = 1) then (q + 1) * 2 ^ sh else q * 2 ^ sh
+
 end VelaVerif.Scaling
